@@ -50,12 +50,14 @@ pub struct Shape {
     pub pidfault: Option<(usize, usize)>,
     /// per spawner: the guard is dropped without a terminal event (failed start / cancelled start) instead of finish(evt)
     pub noevt: Vec<bool>,
+    /// a thread that calls drain() on whatever actor was created last (drain must never move a status backwards)
+    pub drainer: bool,
 }
 
 const KEEP: &[&str] = &[
     "obs.spawn_begin", "new.named", "new.pid", "new.pidfail", "new.rollback", "obs.spawn_ret", "status.set", "cleanup.pid",
     "cleanup.name", "obs.exit_begin", "obs.waited", "obs.proxy_new", "obs.where_is", "obs.lookup_st", "obs.where_is_pid", "obs.registered",
-    "obs.stuck", "obs.end",
+    "obs.stuck", "obs.end", "obs.drain",
 ];
 
 pub fn one_run(shape: &Shape, ex: &mut Explorer) -> (Vec<Value>, Value, bool) {
@@ -63,9 +65,10 @@ pub fn one_run(shape: &Shape, ex: &mut Explorer) -> (Vec<Value>, Value, bool) {
     let name = format!("reg-N-{tag}");
     // every local actor id created in this run (for pid lookups and the final projection)
     let known: Arc<Mutex<Vec<ActorId>>> = Arc::new(Mutex::new(vec![]));
+    let cells: Arc<Mutex<Vec<ractor::ActorCell>>> = Arc::new(Mutex::new(vec![]));
     let mut threads: Vec<HThread> = vec![];
     for i in 0..shape.spawners {
-        let (name, known, sh) = (name.clone(), known.clone(), shape.clone());
+        let (name, known, sh, cells) = (name.clone(), known.clone(), shape.clone(), cells.clone());
         threads.push(HThread {
             role: format!("s{}", i + 1),
             f: Box::new(move || {
@@ -87,6 +90,7 @@ pub fn one_run(shape: &Shape, ex: &mut Explorer) -> (Vec<Value>, Value, bool) {
                         Ok(mut det) => {
                             let cell = det.cell.clone();
                             known.lock().unwrap().push(cell.get_id());
+                            cells.lock().unwrap().push(cell.clone());
                             verif::emit_kv("obs.spawn_ret", cell.get_id().pid(), 0, vec![kvi("ok", 1), kvs("err", ""), kvs("rs", &format!("s{}", i + 1)), kvi("rk", k as i64)]);
                             det.set_status(ActorStatus::Starting);
                             det.set_status(ActorStatus::Running);
@@ -143,6 +147,22 @@ pub fn one_run(shape: &Shape, ex: &mut Explorer) -> (Vec<Value>, Value, bool) {
                         }
                     }
                     verif::point("lk.next", 0, 0);
+                }
+            }),
+        });
+    }
+    if shape.drainer {
+        let cells = cells.clone();
+        threads.push(HThread {
+            role: "d1".into(),
+            f: Box::new(move || {
+                for _ in 0..3 {
+                    let c = cells.lock().unwrap().last().cloned();
+                    if let Some(c) = c {
+                        verif::emit("obs.drain", 0, 0);
+                        let _ = c.drain();
+                    }
+                    verif::point("dr.next", 0, 0);
                 }
             }),
         });
@@ -259,20 +279,22 @@ pub fn one_run(shape: &Shape, ex: &mut Explorer) -> (Vec<Value>, Value, bool) {
 pub fn shapes(tier: &str) -> Vec<Shape> {
     let mut v = vec![
         // three concurrent spawns of one name, one lookup thread
-        Shape { spawners: 3, att: 1, pre: vec![false, true, false], lookers: 1, looks: 2, proxy: false, pidfault: None, noevt: vec![false; 3] },
+        Shape { spawners: 3, att: 1, pre: vec![false, true, false], lookers: 1, looks: 2, proxy: false, pidfault: None, noevt: vec![false; 3], drainer: false },
         // re-spawns: the loser retries after the holder exited (graceful exit: two set_status(Stopping) calls)
-        Shape { spawners: 2, att: 2, pre: vec![true, true], lookers: 1, looks: 3, proxy: false, pidfault: None, noevt: vec![false; 3] },
+        Shape { spawners: 2, att: 2, pre: vec![true, true], lookers: 1, looks: 3, proxy: false, pidfault: None, noevt: vec![false; 3], drainer: false },
         // failed pid registration rolls the name back while a competitor spawns
-        Shape { spawners: 2, att: 2, pre: vec![false, true], lookers: 1, looks: 2, proxy: false, pidfault: Some((0, 1)), noevt: vec![false; 3] },
+        Shape { spawners: 2, att: 2, pre: vec![false, true], lookers: 1, looks: 2, proxy: false, pidfault: Some((0, 1)), noevt: vec![false; 3], drainer: false },
         // a remote proxy carrying the same name exits next to a local holder
-        Shape { spawners: 2, att: 1, pre: vec![true, false], lookers: 1, looks: 2, proxy: true, pidfault: None, noevt: vec![false; 3] },
+        Shape { spawners: 2, att: 1, pre: vec![true, false], lookers: 1, looks: 2, proxy: true, pidfault: None, noevt: vec![false; 3], drainer: false },
         // failed / cancelled starts (the guard goes without a terminal event) racing lookups and re-spawns
-        Shape { spawners: 2, att: 2, pre: vec![false, false], lookers: 1, looks: 4, proxy: false, pidfault: None, noevt: vec![true, true, false] },
-        Shape { spawners: 1, att: 1, pre: vec![false], lookers: 2, looks: 3, proxy: false, pidfault: None, noevt: vec![true, false, false] },
+        Shape { spawners: 2, att: 2, pre: vec![false, false], lookers: 1, looks: 4, proxy: false, pidfault: None, noevt: vec![true, true, false], drainer: false },
+        Shape { spawners: 1, att: 1, pre: vec![false], lookers: 2, looks: 3, proxy: false, pidfault: None, noevt: vec![true, false, false], drainer: false },
+        // drain() calls racing exits and re-spawns under the name (a drain never moves a status backwards)
+        Shape { spawners: 2, att: 2, pre: vec![true, false], lookers: 1, looks: 3, proxy: false, pidfault: None, noevt: vec![false; 3], drainer: true },
     ];
     if tier == "thorough" {
-        v.push(Shape { spawners: 3, att: 2, pre: vec![true, false, true], lookers: 2, looks: 3, proxy: false, pidfault: Some((1, 1)), noevt: vec![false; 3] });
-        v.push(Shape { spawners: 3, att: 2, pre: vec![true, true, false], lookers: 1, looks: 3, proxy: true, pidfault: None, noevt: vec![false; 3] });
+        v.push(Shape { spawners: 3, att: 2, pre: vec![true, false, true], lookers: 2, looks: 3, proxy: false, pidfault: Some((1, 1)), noevt: vec![false; 3], drainer: false });
+        v.push(Shape { spawners: 3, att: 2, pre: vec![true, true, false], lookers: 1, looks: 3, proxy: true, pidfault: None, noevt: vec![false; 3], drainer: false });
     }
     v
 }
